@@ -24,6 +24,40 @@ inductive Cond
   | or (a b : Cond)
 deriving Repr, DecidableEq, Inhabited
 
+/-- syntactic equality, as a plain Boolean function (the kernel evaluates it far faster than the
+    derived `DecidableEq`) -/
+def Cond.beq : Cond → Cond → Bool
+  | .tt, .tt => true
+  | .ff, .ff => true
+  | .truthy f, .truthy g => f == g
+  | .eq f k, .eq g j => f == g && k == j
+  | .not a, .not b => a.beq b
+  | .and a b, .and c d => a.beq c && b.beq d
+  | .or a b, .or c d => a.beq c && b.beq d
+  | _, _ => false
+
+theorem Cond.eq_of_beq : ∀ (a b : Cond), a.beq b = true → a = b := by
+  intro a
+  induction a with
+  | tt => intro b h; cases b <;> simp_all [Cond.beq]
+  | ff => intro b h; cases b <;> simp_all [Cond.beq]
+  | truthy f => intro b h; cases b <;> simp_all [Cond.beq]
+  | eq f k => intro b h; cases b <;> simp_all [Cond.beq]
+  | not a ih => intro b h; cases b <;> simp_all [Cond.beq]; exact ih _ h
+  | and a b iha ihb =>
+    intro c h; cases c <;> simp_all [Cond.beq]
+    exact ⟨iha _ h.1, ihb _ h.2⟩
+  | or a b iha ihb =>
+    intro c h; cases c <;> simp_all [Cond.beq]
+    exact ⟨iha _ h.1, ihb _ h.2⟩
+
+def Cond.isTT : Cond → Bool
+  | .tt => true
+  | _ => false
+
+theorem Cond.eq_tt_of_isTT {c : Cond} (h : c.isTT = true) : c = .tt := by
+  cases c <;> simp_all [Cond.isTT]
+
 def Cond.eval (st : St) : Cond → Bool
   | .tt => true
   | .ff => false
@@ -74,9 +108,9 @@ def mkAnd (a b : Cond) : Cond :=
   | .tt, b => b
   | a, .tt => a
   | a, b =>
-    if b = .not a ∨ a = .not b then .ff else
+    if b.beq (.not a) || a.beq (.not b) then .ff else
     match b with
-    | .or (.not a') b' => if a' = a then .and a b' else .and a b
+    | .or (.not a') b' => if a'.beq a then .and a b' else .and a b
     | _ => .and a b
 
 /-- `a ∨ b`, folded: constants, `a ∨ ¬a`, `a ∨ (¬a ∧ b)` — the shape `errs` and `wp` produce for a
@@ -88,9 +122,9 @@ def mkOr (a b : Cond) : Cond :=
   | .ff, b => b
   | a, .ff => a
   | a, b =>
-    if b = .not a ∨ a = .not b then .tt else
+    if b.beq (.not a) || a.beq (.not b) then .tt else
     match b with
-    | .and (.not a') b' => if a' = a then .or a b' else .or a b
+    | .and (.not a') b' => if a'.beq a then .or a b' else .or a b
     | _ => .or a b
 
 def mkImp (a b : Cond) : Cond := mkOr (mkNot a) b
@@ -103,10 +137,11 @@ def mkImp (a b : Cond) : Cond := mkOr (mkNot a) b
   split <;> try (simp [Cond.eval]; done)
   split
   · rename_i h
-    rcases h with h | h <;> subst h <;> simp [Cond.eval]
+    rw [Bool.or_eq_true] at h
+    rcases h with h | h <;> have h := Cond.eq_of_beq _ _ h <;> subst h <;> simp [Cond.eval]
   · split
     · split
-      · rename_i h; subst h
+      · rename_i h; have h := Cond.eq_of_beq _ _ h; subst h
         simp only [Cond.eval, Bool.and_or_distrib_left, Bool.and_not_self, Bool.false_or]
       · rfl
     · rfl
@@ -116,13 +151,27 @@ def mkImp (a b : Cond) : Cond := mkOr (mkNot a) b
   split <;> try (simp [Cond.eval]; done)
   split
   · rename_i h
-    rcases h with h | h <;> subst h <;> simp [Cond.eval]
+    rw [Bool.or_eq_true] at h
+    rcases h with h | h <;> have h := Cond.eq_of_beq _ _ h <;> subst h <;> simp [Cond.eval]
   · split
     · split
-      · rename_i h; subst h
+      · rename_i h; have h := Cond.eq_of_beq _ _ h; subst h
         simp only [Cond.eval, Bool.or_and_distrib_left, Bool.or_not_self, Bool.true_and]
       · rfl
     · rfl
+
+/-- `if c then x else y` as a formula; nothing at all when both branches say the same (an `if` of
+    the program that does not touch what the formula is about) -/
+def mkIte (c x y : Cond) : Cond :=
+  if x.beq y then x else mkOr (mkAnd c x) (mkAnd (mkNot c) y)
+
+@[simp] theorem mkIte_eval (st : St) (c x y : Cond) :
+    (mkIte c x y).eval st = (if c.eval st then x.eval st else y.eval st) := by
+  unfold mkIte
+  split
+  · rename_i h; have h := Cond.eq_of_beq _ _ h; subst h; split <;> rfl
+  · simp only [mkOr_eval, mkAnd_eval, mkNot_eval]
+    cases h : c.eval st <;> simp
 
 @[simp] theorem mkImp_eval (st : St) (a b : Cond) : (mkImp a b).eval st = (!a.eval st || b.eval st) := by
   simp [mkImp]
@@ -160,7 +209,7 @@ def Stmt.wp : Stmt → Cond → Cond
   | .err _, _ => .ff
   | .warn _, Q => Q
   | .set f k, Q => Q.subst f k
-  | .ite c t e, Q => mkOr (mkAnd c (t.wp Q)) (mkAnd (mkNot c) (e.wp Q))
+  | .ite c t e, Q => mkIte c (t.wp Q) (e.wp Q)
   | .seq a b, Q => a.wp (b.wp Q)
 
 theorem Stmt.wp_sound (s : Stmt) : ∀ (Q : Cond) (st : St),
@@ -184,7 +233,7 @@ def Stmt.errs : Stmt → Cond
   | .err _ => .tt
   | .warn _ => .ff
   | .set _ _ => .ff
-  | .ite c t e => mkOr (mkAnd c t.errs) (mkAnd (mkNot c) e.errs)
+  | .ite c t e => mkIte c t.errs e.errs
   | .seq a b => mkOr a.errs (a.wp b.errs)
 
 theorem Stmt.errs_sound (s : Stmt) : ∀ (st : St), s.errs.eval st = (s.run st).err.isSome := by
@@ -207,7 +256,7 @@ def Stmt.errsWith (m : Nat) : Stmt → Cond
   | .err m' => if m' = m then .tt else .ff
   | .warn _ => .ff
   | .set _ _ => .ff
-  | .ite c t e => mkOr (mkAnd c (t.errsWith m)) (mkAnd (mkNot c) (e.errsWith m))
+  | .ite c t e => mkIte c (t.errsWith m) (e.errsWith m)
   | .seq a b => mkOr (a.errsWith m) (a.wp (b.errsWith m))
 
 theorem Stmt.errsWith_sound (m : Nat) (s : Stmt) : ∀ (st : St),
@@ -233,7 +282,7 @@ def Stmt.warnsWith (m : Nat) : Stmt → Cond
   | .err _ => .ff
   | .warn m' => if m' = m then .tt else .ff
   | .set _ _ => .ff
-  | .ite c t e => mkOr (mkAnd c (t.warnsWith m)) (mkAnd (mkNot c) (e.warnsWith m))
+  | .ite c t e => mkIte c (t.warnsWith m) (e.warnsWith m)
   | .seq a b => mkOr (mkAnd (a.warnsWith m) (a.wp (b.wp .tt))) (a.wp (b.warnsWith m))
 
 theorem Stmt.warnsWith_sound (m : Nat) (s : Stmt) : ∀ (st : St),
@@ -261,6 +310,181 @@ theorem Stmt.warnsWith_sound (m : Nat) (s : Stmt) : ∀ (st : St),
       cases h2 : ((b.run (a.run st).st).err) <;> simp [h, h2, List.contains_append] <;>
         cases (a.run st).warns.contains m <;> simp
 
+/-! ### leaving out assignments nobody reads
+
+The program that defines the m4 symbols is long, and a statement about one symbol concerns two or
+three of its statements.  `Stmt.drop p` removes the assignments to variables in `p`; if no
+condition of the program reads such a variable (`condsAvoid`), the outcome, the warnings and all
+other variables are unchanged (`run_drop`). -/
+
+def Cond.avoids (p : Fld → Bool) : Cond → Bool
+  | .tt => true
+  | .ff => true
+  | .truthy f => !p f
+  | .eq f _ => !p f
+  | .not c => c.avoids p
+  | .and a b => a.avoids p && b.avoids p
+  | .or a b => a.avoids p && b.avoids p
+
+def Stmt.condsAvoid (p : Fld → Bool) : Stmt → Bool
+  | .ite c t e => c.avoids p && t.condsAvoid p && e.condsAvoid p
+  | .seq a b => a.condsAvoid p && b.condsAvoid p
+  | _ => true
+
+def Stmt.isSkip : Stmt → Bool
+  | .skip => true
+  | _ => false
+
+def Stmt.drop (p : Fld → Bool) : Stmt → Stmt
+  | .set f k => if p f then .skip else .set f k
+  | .ite c t e =>
+    let t' := t.drop p
+    let e' := e.drop p
+    if t'.isSkip && e'.isSkip then .skip else .ite c t' e'
+  | .seq a b =>
+    let a' := a.drop p
+    let b' := b.drop p
+    if a'.isSkip then b' else if b'.isSkip then a' else .seq a' b'
+  | s => s
+
+def agree (p : Fld → Bool) (st st' : St) : Prop := ∀ f, p f = false → st f = st' f
+
+theorem Cond.eval_agree {p : Fld → Bool} {st st' : St} (h : agree p st st') :
+    ∀ c : Cond, c.avoids p = true → c.eval st = c.eval st' := by
+  intro c
+  induction c with
+  | tt => intro _; rfl
+  | ff => intro _; rfl
+  | truthy f => intro hc; simp only [Cond.avoids, Bool.not_eq_true'] at hc; simp [Cond.eval, h f hc]
+  | eq f k => intro hc; simp only [Cond.avoids, Bool.not_eq_true'] at hc; simp [Cond.eval, h f hc]
+  | not c ih => intro hc; simp [Cond.eval, ih hc]
+  | and a b iha ihb =>
+    intro hc; simp only [Cond.avoids, Bool.and_eq_true] at hc; simp [Cond.eval, iha hc.1, ihb hc.2]
+  | or a b iha ihb =>
+    intro hc; simp only [Cond.avoids, Bool.and_eq_true] at hc; simp [Cond.eval, iha hc.1, ihb hc.2]
+
+theorem Stmt.isSkip_eq {s : Stmt} (h : s.isSkip = true) : s = .skip := by
+  cases s <;> simp_all [Stmt.isSkip]
+
+theorem Stmt.run_seq_skip (a : Stmt) (st : St) :
+    ((Stmt.seq a .skip).run st).err = (a.run st).err ∧ ((Stmt.seq a .skip).run st).warns = (a.run st).warns ∧
+      ((Stmt.seq a .skip).run st).st = (a.run st).st := by
+  simp only [Stmt.run]
+  cases h : (a.run st).err <;> simp [h]
+
+/-- same outcome, same warnings, same values outside `p` -/
+def Sim (p : Fld → Bool) (r r' : Res) : Prop := r.err = r'.err ∧ r.warns = r'.warns ∧ agree p r.st r'.st
+
+theorem Stmt.run_drop (p : Fld → Bool) (s : Stmt) : s.condsAvoid p = true →
+    ∀ st st', agree p st st' → Sim p (s.run st) ((s.drop p).run st') := by
+  induction s with
+  | skip => intro _ st st' h; exact ⟨rfl, rfl, h⟩
+  | err m => intro _ st st' h; exact ⟨rfl, rfl, h⟩
+  | warn m => intro _ st st' h; exact ⟨rfl, rfl, h⟩
+  | set f k =>
+    intro _ st st' h
+    simp only [Stmt.drop]
+    split
+    · rename_i hp
+      refine ⟨rfl, rfl, ?_⟩
+      intro g hg
+      have : g ≠ f := fun e => by subst e; simp [hp] at hg
+      simp [Stmt.run, upd, this, h g hg]
+    · refine ⟨rfl, rfl, ?_⟩
+      intro g hg
+      by_cases e : g = f <;> simp [Stmt.run, upd, e, h g hg]
+  | ite c t e iht ihe =>
+    intro hc st st' h
+    simp only [Stmt.condsAvoid, Bool.and_eq_true] at hc
+    have hcond := Cond.eval_agree h c hc.1.1
+    have ht := iht hc.1.2 st st' h
+    have he := ihe hc.2 st st' h
+    simp only [Stmt.drop]
+    split
+    · rename_i hs
+      simp only [Bool.and_eq_true] at hs
+      rw [Stmt.isSkip_eq hs.1] at ht
+      rw [Stmt.isSkip_eq hs.2] at he
+      simp only [Stmt.run]
+      split
+      · exact ht
+      · exact he
+    · simp only [Stmt.run, hcond]
+      split
+      · exact ht
+      · exact he
+  | seq a b iha ihb =>
+    intro hc st st' h
+    simp only [Stmt.condsAvoid, Bool.and_eq_true] at hc
+    have ha := iha hc.1 st st' h
+    -- the run of `seq a b` against the run of `seq (a.drop p) (b.drop p)`
+    have key : Sim p ((Stmt.seq a b).run st) ((Stmt.seq (a.drop p) (b.drop p)).run st') := by
+      obtain ⟨he, hw, hs⟩ := ha
+      simp only [Stmt.run]
+      cases hea : (a.run st).err with
+      | some m =>
+        rw [hea] at he
+        simp only [← he]
+        exact ⟨by rw [hea, he], hw, hs⟩
+      | none =>
+        rw [hea] at he
+        simp only [← he]
+        obtain ⟨he2, hw2, hs2⟩ := ihb hc.2 _ _ hs
+        exact ⟨he2, by simp [hw, hw2], hs2⟩
+    simp only [Stmt.drop]
+    split
+    · rename_i hs
+      rw [Stmt.isSkip_eq hs] at key
+      simpa [Stmt.run] using key
+    · split
+      · rename_i hs
+        rw [Stmt.isSkip_eq hs] at key
+        obtain ⟨k1, k2, k3⟩ := key
+        obtain ⟨e1, e2, e3⟩ := Stmt.run_seq_skip (a.drop p) st'
+        refine ⟨by rw [k1, e1], by rw [k2, e2], ?_⟩
+        intro g hg; rw [k3 g hg, e3]
+      · exact key
+
+theorem Stmt.run_drop_self (p : Fld → Bool) (s : Stmt) (h : s.condsAvoid p = true) (st : St) :
+    Sim p (s.run st) ((s.drop p).run st) :=
+  s.run_drop p h st st (fun _ _ => rfl)
+
+theorem Stmt.condsAvoid_mono {p q : Fld → Bool} (hpq : ∀ f, q f = true → p f = true) :
+    ∀ s : Stmt, s.condsAvoid p = true → s.condsAvoid q = true := by
+  have hc : ∀ c : Cond, c.avoids p = true → c.avoids q = true := by
+    intro c
+    induction c with
+    | tt => intro _; rfl
+    | ff => intro _; rfl
+    | truthy f =>
+      intro h
+      simp only [Cond.avoids, Bool.not_eq_true'] at h ⊢
+      cases hq : q f with
+      | false => rfl
+      | true => rw [hpq f hq] at h; exact absurd h (by simp)
+    | eq f k =>
+      intro h
+      simp only [Cond.avoids, Bool.not_eq_true'] at h ⊢
+      cases hq : q f with
+      | false => rfl
+      | true => rw [hpq f hq] at h; exact absurd h (by simp)
+    | not c ih => intro h; exact ih h
+    | and a b iha ihb =>
+      intro h; simp only [Cond.avoids, Bool.and_eq_true] at h ⊢; exact ⟨iha h.1, ihb h.2⟩
+    | or a b iha ihb =>
+      intro h; simp only [Cond.avoids, Bool.and_eq_true] at h ⊢; exact ⟨iha h.1, ihb h.2⟩
+  intro s
+  induction s with
+  | ite c t e iht ihe =>
+    intro h
+    simp only [Stmt.condsAvoid, Bool.and_eq_true] at h ⊢
+    exact ⟨⟨hc c h.1.1, iht h.1.2⟩, ihe h.2⟩
+  | seq a b iha ihb =>
+    intro h
+    simp only [Stmt.condsAvoid, Bool.and_eq_true] at h ⊢
+    exact ⟨iha h.1, ihb h.2⟩
+  | _ => intro _; rfl
+
 /-! ### deciding a formula over finite value sets -/
 
 /-- `c` holds for every assignment of the listed values to the listed variables (and `c` mentions
@@ -275,7 +499,7 @@ def Cond.mentions (f : Fld) : Cond → Bool
   | .or a b => a.mentions f || b.mentions f
 
 def tautOn : List (Fld × List Int) → Cond → Bool
-  | [], c => c == .tt
+  | [], c => c.isTT
   | (f, vals) :: rest, c =>
     if c.mentions f then vals.all fun v => tautOn rest (c.subst f v) else tautOn rest c
 
@@ -291,7 +515,8 @@ theorem tautOn_sound : ∀ (doms : List (Fld × List Int)) (c : Cond), tautOn do
   induction doms with
   | nil =>
     intro c h st _
-    simp only [tautOn, beq_iff_eq] at h
+    simp only [tautOn] at h
+    have h := Cond.eq_tt_of_isTT h
     subst h; rfl
   | cons p rest ih =>
     intro c h st hst
@@ -336,10 +561,10 @@ def Cond.first? : Cond → Option Fld
 /-- as `tautOn`, but the next variable to split on is the leftmost one of the formula: the order in
     which the program tests them, so each branch collapses as a path of the program would -/
 def tautA (doms : List (Fld × List Int)) : Nat → Cond → Bool
-  | 0, c => c == .tt
+  | 0, c => c.isTT
   | fuel + 1, c =>
     match c.first? with
-    | none => c == .tt
+    | none => c.isTT
     | some f =>
       match doms.find? (fun p => p.1 == f) with
       | none => false
@@ -351,13 +576,14 @@ theorem tautA_sound (doms : List (Fld × List Int)) : ∀ (fuel : Nat) (c : Cond
   induction fuel with
   | zero =>
     intro c h st _
-    simp only [tautA, beq_iff_eq] at h
+    simp only [tautA] at h
+    have h := Cond.eq_tt_of_isTT h
     subst h; rfl
   | succ n ih =>
     intro c h st hst
     simp only [tautA] at h
     split at h
-    · simp only [beq_iff_eq] at h
+    · have h := Cond.eq_tt_of_isTT h
       subst h; rfl
     · rename_i f _
       split at h
